@@ -6,13 +6,52 @@ import json
 import math
 from fractions import Fraction
 
+import os
+
 from harness import common as C
 from harness import ragged as R
 
+# Clause-by-clause coverage of the property text (properties.jsonl, C09): oracle key(s) that judge the clause | generator
+# kinds that exercise it.  stats()["forms"] counts every parameter form / entry point, sanity() fails closed on a zero.
+CLAUSES = [
+    "DataFrame and TensorFrame stay row-aligned after any sequence | misaligned:<op>, misaligned:read_tf | every "
+    "deriving step (sel/fslice/shuffle/get_split/split) + read_tf, on every node of the tree; materialize in 7 forms "
+    "(plain, device kw/str/positional, user col_stats, cache save, cache load)",
+    "row selection returns exactly the requested rows: integer, list, slice, fractional slice, tensor | wrong-rows:sel(int|"
+    "list|range|slice|tensor|mask), raises:sel(*), no-raise:sel(*) | sel with R.gen_index (int, list, range, slice, "
+    "int64/int32 index tensor, bool mask; in- and out-of-range, negative, empty, repeated) through dataset[...], "
+    "index_select(ix), index_select(index=ix)",
+    "a shuffle is the reported permutation | wrong-rows:shuffle, not-a-permutation:shuffle, no-raise/raises:shuffle | "
+    "shuffle(return_perm=True) / shuffle(True) (reported perm) and shuffle() / shuffle(return_perm=False) (inferred perm)",
+    "a fractional slice cuts at round(fraction x length) | wrong-rows:fslice, raises:fslice, no-raise:fslice | fslice with "
+    "float/int/None bounds on either side, steps None/1/2/3/0/-1, FLOATS grid incl. ties, negative and > 1 fractions",
+    "train/val/test subsets = rows with split value 0/1/2, in order, regardless of earlier shuffles/selections and of the "
+    "index labels | wrong-rows:get_split, wrong-rows:split, raises:get_split, raises:split | get_split(name) / "
+    "get_split(split=name) / split() on any node of the tree, 8 label kinds + pandas' own RangeIndex, split column dtypes "
+    "int64/int32/uint8/float64/object/category, empty splits",
+    "derived datasets never alter the dataset they came from | source-modified:<op> | snapshot of EVERY existing dataset "
+    "before/after EVERY step",
+    "column selection always keeps the target | wrong-cols:col_select[*], target-dropped | col_select(list) / "
+    "col_select(cols=list) / col_select(str) / dataset[list] / dataset[str], with/without target in the request, "
+    "repeated names, unknown names",
+    "column selection only before materialization | no-raise:col_select[*], raises:col_select[*] | col_select on "
+    "materialized nodes (all five entry points) and in the pre-materialization phase",
+    "TensorFrame, statistics and row selection only after materialization | no-raise:read_tf, no-raise:read_stats, "
+    "no-raise:read_conv, no-raise:sel(*)/fslice/shuffle/get_split/split, raises:read_* | pre-materialization phase: "
+    "tensor_frame, col_stats, convert_to_tensor_frame and every row operation on unmaterialized nodes",
+    "generator labels floor(n*tr) train, floor(n*vr) val, remainder test (val when no test split) | wrong-counts:test, "
+    "wrong-counts:notest, wrong-length:*, wrong-labels:* | grid n=0..60,100 x 13 ratio pairs + random points; call forms "
+    "keyword / positional / mixed / defaults omitted (0.8, 0.1, True) / numpy scalar arguments",
+    "arranged in an order determined solely by the seed, under any prior global RNG state | not-seed-determined | every "
+    "point is called under two different prior states of the global numpy RNG",
+    "rejects ratios that are not positive / leave no room / do not exactly fill | no-reject:test, no-reject:notest, "
+    "rejects-valid:* | ratios <= 0 (incl. -0.0), sums >= 1 with test, sums != 1 without test (0.7+0.3, 0.29+0.71, ...)",
+]
+
 PROP = "C09"
 HEADER = ("Require Import PF.Lib.PySlice PF.Lib.FloatInt PF.Model.Dataset PF.Model.Split "
-          "PF.Model.DatasetRun.")
-MODEL_TARGETS = ["Model/DatasetRun.vo", "Model/Split.vo"]
+          "PF.Model.DatasetRun PF.Model.DatasetHeap.")
+MODEL_TARGETS = ["Model/DatasetRun.vo", "Model/Split.vo", "Model/DatasetHeap.vo"]
 SHARD = 100
 ALLOWED_AXIOMS = ()   # the header line "Axioms:" of Print Assumptions; the entries are PrimFloat./PrimInt63. primitives
 RULE = ("(a) histories: a Dataset of 0-12 rows (row-id feature columns, optional target, split column with an "
@@ -25,7 +64,8 @@ RULE = ("(a) histories: a Dataset of 0-12 rows (row-id feature columns, optional
 TRUSTED = [
     "Coq 8.16.1 kernel + vm_compute (no native_compute); primitive floats / Uint63 (kernel primitives) for "
     "round(f*len) and int(length*ratio)",
-    "hand-written models coq/Model/Dataset.v (dataset.py row-subset API) and coq/Model/Split.v "
+    "hand-written models coq/Model/Dataset.v (dataset.py row-subset API), coq/Model/DatasetHeap.v (the Dataset objects "
+    "with their shared statistics dict) and coq/Model/Split.v "
     "(generate_random_split), tied to /repo by this run's observational correspondence; SPLIT_TO_NUM comes from "
     "Gen/Tables.v (regenerated)",
     "modelled primitives: df.iloc / TensorFrame.__getitem__ positional semantics (Lib/PySlice.v py_positions), "
@@ -46,13 +86,18 @@ ASSUMPTIONS = [
     "tensor as a (deprecated) byte mask while df.iloc reads it as positions, so d[torch.tensor([1,0,1,0,1], "
     "dtype=torch.uint8)] de-aligns DataFrame and TensorFrame; the property's 'tensor' means an integer index tensor "
     "or a boolean mask, which is what the generator draws (torch.long / torch.bool)",
-    "'derived datasets never alter the dataset they came from' is true of the purely functional Coq model by "
-    "construction (no aliasing is represented); for the real objects it is OBSERVED: every existing dataset is "
-    "snapshotted (index labels, every DataFrame id column, split values, columns, col_to_stype keys, target_col, "
-    "split_col, is_materialized, len, every TensorFrame column and y, col_stats keys) before and after EVERY "
-    "operation of every history.  One exception is tallied, not reported: materialize() of a dataset adds keys to "
-    "the col_stats of its col_select relatives (copy.copy shares the _col_stats dict) - a source altering a "
-    "derived dataset, which the property does not speak about (input_distribution.col_stats_aliasing_seen)",
+    "'derived datasets never alter the dataset they came from': Model/DatasetHeap.v represents the one object the "
+    "anchored code shares between copy.copy copies AND mutates in place (the _col_stats dict) as a heap cell, proves "
+    "that every operation except materialize() leaves every existing object and dict untouched, and gives "
+    "materialize() its exact footprint (materialize_footprint: only the receiver, and - when statistics are computed "
+    "in place - new keys in the dict its col_select relatives share).  That heap model is compared with the real "
+    "objects after EVERY step (col_stats keys of EVERY dataset, in dict order).  Rows, TensorFrame cells, columns and "
+    "flags are values in the model (re-bound on the copy in the code): that no code path mutates THEM in place is "
+    "OBSERVED by the snapshots of every existing dataset (index labels, every DataFrame id column, split values, "
+    "columns, col_to_stype keys, target_col, split_col, is_materialized, len, every TensorFrame column and y) before "
+    "and after every operation of every history.  materialize() adding keys to a relative's col_stats is the "
+    "modelled aliasing (tallied as input_distribution.col_stats_aliasing_seen), not a violation: the property speaks "
+    "of derived datasets altering their source",
     "that the DataFrame's index labels are never consulted holds of the model by construction (no model function "
     "reads a label); for the code it is observed under eight label kinds",
     "numpy's arrangement depends on (seed, length) only: carried by the type of np_perm in Model/Split.v, i.e. an "
@@ -65,6 +110,7 @@ ASSUMPTIONS = [
 SPLIT_NUM = {"train": 0, "val": 1, "test": 2}     # the property statement's own constants
 ID_COLS = {"rid": 0, "f2": 200, "y": 100}        # column name -> offset added to the row id
 DERIVING = ("sel", "fslice", "shuffle", "get_split", "col_select")
+READS = ("read_tf", "read_stats", "read_conv")
 FLOATS = [0.3, 0.25, 0.75, 0.5, 0.1, 0.9, 0.7, 0.8, 1 / 3, 2 / 3, 0.0, 1.0, 0.05, 0.95, 0.45, 0.55, 0.35, 0.65,
           0.15, 0.85, 0.2, 0.4, 0.6, 1.5, -0.25, -0.5, -0.3, 0.125, 0.29, 0.99, 1e-9]
 
@@ -216,18 +262,23 @@ def gen_row_op(rng, st, p, clean):
     n = len(st["rows"])
     kind = rng.wpick([(30, "sel"), (16, "fslice"), (16, "shuffle"), (16, "get_split"), (6, "split")])
     if kind == "sel":
-        return {"o": "sel", "p": p, "via": rng.pick(["getitem", "index_select"]),
-                "idx": R.gen_index(rng, n, allow_bad=not clean)}
+        idx = R.gen_index(rng, n, allow_bad=not clean)
+        if idx["t"] == "tensor" and rng.chance(0.35):
+            idx["dt"] = "int32"                    # torch accepts int32 index tensors as well
+        return {"o": "sel", "p": p, "via": rng.pick(["getitem", "index_select", "index_select_kw"]), "idx": idx}
     if kind == "fslice":
         a, b = gen_bound(rng, n), gen_bound(rng, n)
         if a is not None and b is not None and a[0] == "i" and b[0] == "i":
             b = ["f", fhex(rng.pick(FLOATS))]
         s = rng.wpick([(8, None), (2, 1), (2, 2), (1, 3)]) if clean else rng.pick([None, 1, 2, 0, -1])
-        return {"o": "fslice", "p": p, "via": rng.pick(["getitem", "getitem", "index_select"]), "a": a, "b": b, "s": s}
+        return {"o": "fslice", "p": p, "via": rng.pick(["getitem", "getitem", "index_select", "index_select_kw"]),
+                "a": a, "b": b, "s": s}
     if kind == "shuffle":
-        return {"o": "shuffle", "p": p, "ret": rng.chance(0.7), "tseed": rng.randint(0, 10 ** 6)}
+        form = rng.wpick([(4, "kw_true"), (2, "pos_true"), (2, "default"), (1, "kw_false")])
+        return {"o": "shuffle", "p": p, "ret": form in ("kw_true", "pos_true"), "form": form,
+                "tseed": rng.randint(0, 10 ** 6)}
     if kind == "get_split":
-        return {"o": "get_split", "p": p, "name": rng.pick(["train", "val", "test"])}
+        return {"o": "get_split", "p": p, "name": rng.pick(["train", "val", "test"]), "kw": rng.chance(0.3)}
     return {"o": "split", "p": p}
 
 
@@ -245,8 +296,18 @@ def gen_col_select(rng, st, p):
             cols.insert(rng.randint(0, len(cols)), st["target"])
     if rng.chance(0.12) and cols[0] in st["cols"]:
         cols.insert(rng.randint(0, len(cols)), rng.pick(cols))      # a repeated name
-    via = rng.pick(["method", "getitem"]) if len(cols) != 1 else rng.pick(["method", "getitem", "getitem_str", "method_str"])
+    via = rng.pick(["method", "getitem", "method_kw"]) if len(cols) != 1 else \
+        rng.pick(["method", "getitem", "getitem_str", "method_str", "method_kw"])
     return {"o": "col_select", "p": p, "via": via, "cols": cols}
+
+
+MAT_FORMS = ("plain", "device_none_kw", "device_str", "device_pos", "user_stats", "cache_save", "cache_load")
+
+
+def gen_mat_form(rng):
+    """materialize(device=None, path=None, col_stats=None): every parameter away from its default"""
+    return rng.wpick([(6, "plain"), (1, "device_none_kw"), (1, "device_str"), (1, "device_pos"), (1, "user_stats"),
+                      (1, "cache_save"), (1, "cache_load")])
 
 
 def gen_hist(rng, tier):
@@ -257,7 +318,10 @@ def gen_hist(rng, tier):
     else:
         vals = [0, 0, 1, 2]
     splits = [rng.pick(vals) for _ in range(n)]
-    case = {"k": "hist", "lkind": lkind, "labels": labels, "splits": splits, "target": rng.chance(0.7)}
+    case = {"k": "hist", "lkind": lkind, "labels": labels, "splits": splits, "target": rng.chance(0.7),
+            # representations pandas / the user choose: the split column's dtype; a genuine RangeIndex
+            "sdtype": rng.wpick([(4, "int64"), (1, "int32"), (1, "uint8"), (1, "float64"), (1, "object"), (1, "category")]),
+            "default_index": lkind == "range" and rng.chance(0.6)}
     prog, ref = [], [root_state(case)]
 
     def push(step, fake_perm=True):
@@ -268,7 +332,7 @@ def gen_hist(rng, tier):
             if par is not None and not par.get("dup"):
                 par["mat"] = True       # (with a repeated column name materialize raises)
             return
-        if o in ("read_tf", "read_stats"):
+        if o in READS:
             return
         k = 3 if o == "split" else 1
         if par is None:
@@ -287,13 +351,15 @@ def gen_hist(rng, tier):
                 push(st)
                 if ref[-1] is not None and not ref[-1].get("dup") and rng.chance(0.8):
                     cur = len(ref) - 1
-            elif r < 0.6:
+            elif r < 0.57:
                 push({"o": "read_tf", "p": cur})
-            elif r < 0.7:
+            elif r < 0.64:
                 push({"o": "read_stats", "p": cur})
+            elif r < 0.7:
+                push({"o": "read_conv", "p": cur})
             else:
                 push(gen_row_op(rng, dict(ref[cur], mat=True), cur, True))
-    push({"o": "mat", "p": cur})
+    push({"o": "mat", "p": cur, "form": gen_mat_form(rng)})
     L = rng.wpick([(3, 1), (4, 2), (4, 3), (3, 4), (2, 5), (2, 6)]) if tier == "quick" else rng.randint(1, 8)
     for _ in range(L):
         live = [i for i, s in enumerate(ref) if s is not None and s["mat"]]
@@ -306,16 +372,22 @@ def gen_hist(rng, tier):
             p = rng.pick(live)
         st = ref[p]
         r = rng.random()
-        if st is None:
+        unmat = [i for i in anyn if not ref[i]["mat"]]
+        if unmat and rng.chance(0.15):
+            # a col_select relative / the source materialized later: the shared statistics dict
+            push({"o": "mat", "p": rng.pick(unmat), "form": gen_mat_form(rng)})
+        elif st is None:
             push({"o": "get_split", "p": p, "name": "train"})
         elif r < 0.05:
             push(gen_col_select(rng, st, p))       # illegal after materialization
-        elif r < 0.10:
+        elif r < 0.09:
             push({"o": "read_tf", "p": p})
-        elif r < 0.12:
+        elif r < 0.11:
             push({"o": "read_stats", "p": p})
+        elif r < 0.12:
+            push({"o": "read_conv", "p": p})
         elif r < 0.15:
-            push({"o": "mat", "p": rng.pick(anyn)})
+            push({"o": "mat", "p": rng.pick(anyn), "form": gen_mat_form(rng)})
         else:
             push(gen_row_op(rng, st, p, rng.chance(0.8)))
     case["prog"] = prog
@@ -355,7 +427,10 @@ def gen_split_case(rng, n=None, tr=None, vr=None, it=None):
             vr = rng.randint(1, m - 1) / m
         else:
             vr = rng.randint(1, 99) / 100.0
-    return {"n": n, "tr": fhex(tr), "vr": fhex(vr), "include_test": it,
+    form = rng.wpick([(4, "kw"), (2, "pos"), (2, "mixed")])
+    if tr == 0.8 and (vr == 0.1 or rng.chance(0.5)) and it:
+        form = "defaults"                      # leave out every argument that equals its default
+    return {"n": n, "tr": fhex(tr), "vr": fhex(vr), "include_test": it, "form": form, "np": rng.chance(0.1),
             "seed": rng.pick([0, 1, 42, 2 ** 32 - 1]) if rng.chance(0.3) else rng.randint(0, 2 ** 32 - 1),
             "prior": rng.randint(0, 10 ** 6)}
 
@@ -419,11 +494,21 @@ def build(case):
     if case["target"]:
         data["y"] = [float(100 + i) for i in range(n)]
         c2s["y"] = torch_frame.numerical
-    data["s"] = [int(v) for v in case["splits"]]
+    import numpy as np
     labels = list(case["labels"])
-    df = pd.DataFrame(data, index=pd.Index(labels) if any(isinstance(x, str) for x in labels)
-                      else pd.Index(labels, dtype="int64"))
-    df["s"] = df["s"].astype("int64")
+    if case.get("default_index"):
+        df = pd.DataFrame(data)                # pandas' own RangeIndex
+    else:
+        df = pd.DataFrame(data, index=pd.Index(labels) if any(isinstance(x, str) for x in labels)
+                          else pd.Index(labels, dtype="int64"))
+    sd = case.get("sdtype", "int64")
+    sv = np.array([int(v) for v in case["splits"]], dtype="int64")
+    if sd == "object":
+        df["s"] = pd.Series([int(v) for v in sv], index=df.index, dtype=object)
+    elif sd == "category":
+        df["s"] = pd.Series(sv, index=df.index).astype("category")
+    else:
+        df["s"] = sv.astype(sd)
     return Dataset(df, c2s, target_col="y" if case["target"] else None, split_col="s")
 
 
@@ -481,28 +566,35 @@ def snapshot(d):
         s["tf"], s["tf_cols"] = ids, names
         if prob:
             s["prob"] = prob
-        s["stat_cols"] = sorted(str(c) for c in d.col_stats.keys())
+        s["stat_cols"] = [str(c) for c in d.col_stats.keys()]       # dict (insertion) order
     return s
 
 
 def apply_step(parent, st, rec):
     import torch
     o = st["o"]
+    def rows(ix):
+        if st["via"] == "getitem":
+            return parent[ix]
+        return parent.index_select(index=ix) if st["via"] == "index_select_kw" else parent.index_select(ix)
+
     if o == "sel":
-        ix = R.to_py_index(st["idx"])
-        return [parent[ix] if st["via"] == "getitem" else parent.index_select(ix)]
+        ix = st["idx"]
+        if ix["t"] == "tensor" and ix.get("dt") == "int32":
+            return [rows(torch.tensor(ix["l"], dtype=torch.int32))]
+        return [rows(R.to_py_index(ix))]
     if o == "fslice":
-        sl = slice(bound_py(st["a"]), bound_py(st["b"]), st["s"])
-        return [parent[sl] if st["via"] == "getitem" else parent.index_select(sl)]
+        return [rows(slice(bound_py(st["a"]), bound_py(st["b"]), st["s"]))]
     if o == "shuffle":
         torch.manual_seed(st["tseed"])
-        if st["ret"]:
-            d, perm = parent.shuffle(return_perm=True)
+        form = st.get("form", "kw_true" if st["ret"] else "default")
+        if form in ("kw_true", "pos_true"):
+            d, perm = parent.shuffle(return_perm=True) if form == "kw_true" else parent.shuffle(True)
             rec["perm"] = [int(x) for x in perm.tolist()]
             return [d]
-        return [parent.shuffle()]
+        return [parent.shuffle(return_perm=False) if form == "kw_false" else parent.shuffle()]
     if o == "get_split":
-        return [parent.get_split(st["name"])]
+        return [parent.get_split(split=st["name"]) if st.get("kw") else parent.get_split(st["name"])]
     if o == "split":
         a, b, c = parent.split()
         return [a, b, c]
@@ -511,6 +603,8 @@ def apply_step(parent, st, rec):
         via = st["via"]
         if via == "method":
             return [parent.col_select(cols)]
+        if via == "method_kw":
+            return [parent.col_select(cols=cols)]
         if via == "getitem":
             return [parent[cols]]
         if via == "getitem_str":
@@ -522,6 +616,54 @@ def apply_step(parent, st, rec):
 def run(case):
     if case["k"] == "gen":
         return run_gen(case)
+    import shutil
+    import tempfile
+    tmp = [None]
+
+    def cache_path():
+        if tmp[0] is None:
+            tmp[0] = tempfile.mkdtemp(prefix="c09_", dir=C.BUILD)
+        return os.path.join(tmp[0], f"cache{len(os.listdir(tmp[0]))}.pt")
+
+    try:
+        return _run_hist(case, cache_path)
+    finally:
+        if tmp[0] is not None:
+            shutil.rmtree(tmp[0], ignore_errors=True)
+
+
+def twin_of(d):
+    """an independent dataset over a copy of the same frame and configuration"""
+    from torch_frame.data import Dataset
+    sc = d.split_col if d.split_col in d.df.columns else None
+    return Dataset(d.df.copy(), dict(d.col_to_stype), target_col=d.target_col, split_col=sc)
+
+
+def materialize_as(d, form, cache_path):
+    import torch
+    if form == "plain":
+        return d.materialize()
+    if form == "device_none_kw":
+        return d.materialize(device=None, path=None, col_stats=None)
+    if form == "device_str":
+        return d.materialize(device="cpu")
+    if form == "device_pos":
+        return d.materialize(torch.device("cpu"))
+    if form == "user_stats":
+        if d.is_materialized:
+            return d.materialize(col_stats=d.col_stats)
+        return d.materialize(col_stats=twin_of(d).materialize().col_stats)
+    if form == "cache_save":
+        return d.materialize(path=cache_path())
+    if form == "cache_load":
+        p = cache_path()
+        if not d.is_materialized:
+            twin_of(d).materialize(path=p)          # writes the file this materialization then loads
+        return d.materialize(None, p)
+    raise ValueError(form)
+
+
+def _run_hist(case, cache_path):
     nodes = [build(case)]
     snaps = [snapshot(nodes[0])]
     steps = []
@@ -530,16 +672,18 @@ def run(case):
         parent = nodes[p] if p < len(nodes) else None
         k = 3 if o == "split" else (1 if o in DERIVING else 0)
         if parent is None:
-            steps.append({"skipped": True})
             nodes += [None] * k
             snaps += [None] * k
+            steps.append({"skipped": True, "views": views_of(snaps)})
             continue
         rec = {"ok": True}
         new = []
         try:
             if o == "mat":
-                r = parent.materialize()
+                r = materialize_as(parent, st.get("form", "plain"), cache_path)
                 rec["returns_self"] = r is parent
+            elif o == "read_conv":
+                rec["conv"] = type(parent.convert_to_tensor_frame).__name__
             elif o == "read_tf":
                 ids, names, prob = read_tf_ids(parent.tensor_frame)
                 rec["tf"], rec["prob"] = ids, prob
@@ -578,8 +722,13 @@ def run(case):
             rec["nodes"] = [snapshot(x) for x in new]
         nodes += new
         snaps += rec.get("nodes", [None] * k) if o != "mat" else []
+        rec["views"] = views_of(snaps)      # col_stats keys of EVERY dataset after this step
         steps.append(rec)
     return {"steps": steps}
+
+
+def views_of(snaps):
+    return [None if (sn is None or not sn["mat"]) else sn["stat_cols"] for sn in snaps]
 
 
 def run_gen(case):
@@ -590,13 +739,32 @@ def run_gen_pt(case):
     import numpy as np
     from torch_frame.utils.split import generate_random_split
     tr, vr = float.fromhex(case["tr"]), float.fromhex(case["vr"])
-    kw = dict(length=case["n"], seed=case["seed"], train_ratio=tr, val_ratio=vr, include_test=case["include_test"])
+    n, it, form = case["n"], case["include_test"], case.get("form", "kw")
+    if case.get("np"):
+        n, tr, vr = np.int64(n), np.float64(tr), np.float64(vr)
+
+    def call():
+        if form == "pos":
+            return generate_random_split(n, case["seed"], tr, vr, it)
+        if form == "mixed":
+            return generate_random_split(n, case["seed"], tr, include_test=it, val_ratio=vr)
+        if form == "defaults":
+            kw = {}
+            if tr != 0.8:
+                kw["train_ratio"] = tr
+            if vr != 0.1:
+                kw["val_ratio"] = vr
+            if it is not True:
+                kw["include_test"] = it
+            return generate_random_split(n, case["seed"], **kw)
+        return generate_random_split(length=n, seed=case["seed"], train_ratio=tr, val_ratio=vr, include_test=it)
+
     out = []
     for k in range(2):          # the same call under two different prior states of the global numpy RNG
         np.random.seed((case["prior"] + 7919 * k) % (2 ** 32))
         np.random.random(1 + (case["prior"] + k) % 5)
         try:
-            a = generate_random_split(**kw)
+            a = call()
             out.append({"ok": True, "arr": [int(x) for x in a.tolist()], "dtype_kind": a.dtype.kind, "ndim": a.ndim})
         except Exception as ex:
             out.append({"ok": False, "exc": C.exc_name(ex)})
@@ -679,7 +847,7 @@ def oracle(case, obs):
             if f:
                 return f
             continue
-        if o in ("read_tf", "read_stats"):
+        if o in READS:
             if g["ok"] != par["mat"]:
                 return dict(key=f"{'raises' if par['mat'] else 'no-raise'}:{o}",
                             what=f"step {idx} {o} on a{'' if par['mat'] else 'n un'}materialized dataset "
@@ -865,13 +1033,21 @@ def stats(cases, obss):
     d = {"hist": 0, "gen": 0, "ops": {}, "label_kinds": {}, "n_rows": {}, "prog_len": {}, "steps_raising": 0,
          "steps_total": 0, "cases_with_empty_result": 0, "cases_with_empty_split": 0, "tree_shaped": 0,
          "with_pre_phase": 0, "gen_rejected": 0, "gen_no_test": 0, "gen_floor_differs_from_exact": 0,
-         "col_stats_aliasing_seen": 0, "repeated_column_requests": 0, "float_cut_differs_from_int": 0}   # gen* count split-generator points
+         "col_stats_aliasing_seen": 0, "repeated_column_requests": 0, "float_cut_differs_from_int": 0,
+         "forms": {}}       # how often each parameter form / entry point was drawn
+
+    def form(k):
+        d["forms"][k] = d["forms"].get(k, 0) + 1
+   # gen* count split-generator points
     for c, o in zip(cases, obss):
         if c is None or o is None:
             continue
         if c["k"] == "gen":
             for pt, po in zip(c["pts"], o.get("pts", [])):
                 d["gen"] += 1
+                form("generate_random_split:" + pt.get("form", "kw"))
+                if pt.get("np"):
+                    form("generate_random_split:numpy-scalars")
                 d["gen_rejected"] += 0 if po["calls"][0].get("ok") else 1
                 d["gen_no_test"] += 0 if pt["include_test"] else 1
                 tr = float.fromhex(pt["tr"])
@@ -879,6 +1055,8 @@ def stats(cases, obss):
                     d["gen_floor_differs_from_exact"] += 1
             continue
         d["hist"] += 1
+        form("split-column-dtype:" + c.get("sdtype", "int64"))
+        form("index:pandas-RangeIndex" if c.get("default_index") else "index:explicit")
         d["label_kinds"][c["lkind"]] = d["label_kinds"].get(c["lkind"], 0) + 1
         n = len(c["labels"])
         d["n_rows"][n] = d["n_rows"].get(n, 0) + 1
@@ -895,6 +1073,18 @@ def stats(cases, obss):
             d["steps_total"] += 1
             if g.get("stats_aliased"):
                 d["col_stats_aliasing_seen"] += 1
+            if st["o"] in ("sel", "fslice"):
+                form("rows:" + st["via"])
+                if st["o"] == "sel" and st["idx"]["t"] == "tensor":
+                    form("tensor:" + st["idx"].get("dt", "int64"))
+            elif st["o"] == "shuffle":
+                form("shuffle:" + st.get("form", "kw_true" if st["ret"] else "default"))
+            elif st["o"] == "get_split":
+                form("get_split:" + ("keyword" if st.get("kw") else "positional"))
+            elif st["o"] == "col_select":
+                form("col_select:" + st["via"])
+            elif st["o"] == "mat":
+                form("materialize:" + st.get("form", "plain"))
             if st["o"] == "col_select" and len(set(st["cols"])) != len(st["cols"]):
                 d["repeated_column_requests"] += 1
             if st["o"] == "fslice":
@@ -943,11 +1133,26 @@ def sanity(cases, obss):
                     ("float_cut_differs_from_int", "no fractional bound where round() and int() differ"),
                     ("gen_floor_differs_from_exact", "no (n, ratio) where the double product's floor differs from "
                                                      "the exact one"),
+                    ("col_stats_aliasing_seen", "no materialize() that adds keys to a relative's statistics dict"),
+                    ("repeated_column_requests", "no col_select with a repeated name"),
                     ("gen_no_test", "include_test=False never drawn")):
         if d[k] == 0:
             probs.append(what)
     if not (0.05 * d["gen"] <= d["gen_rejected"] <= 0.6 * d["gen"]):
         probs.append(f"{d['gen_rejected']} of {d['gen']} generator points rejected")
+    need = (["rows:getitem", "rows:index_select", "rows:index_select_kw", "tensor:int64", "tensor:int32",
+             "shuffle:kw_true", "shuffle:pos_true", "shuffle:default", "shuffle:kw_false",
+             "get_split:keyword", "get_split:positional", "index:pandas-RangeIndex", "index:explicit",
+             "generate_random_split:kw", "generate_random_split:pos", "generate_random_split:mixed",
+             "generate_random_split:defaults", "generate_random_split:numpy-scalars"]
+            + ["col_select:" + v for v in ("method", "method_kw", "method_str", "getitem", "getitem_str")]
+            + ["materialize:" + f for f in MAT_FORMS]
+            + ["split-column-dtype:" + t for t in ("int64", "int32", "uint8", "float64", "object", "category")])
+    for k in need:
+        if d["forms"].get(k, 0) == 0:
+            probs.append(f"parameter form / entry point {k} never drawn")
+    if d["ops"].get("read_conv", 0) == 0:
+        probs.append("operation read_conv never drawn")
     if 0 not in d["n_rows"] or max(d["n_rows"]) < 8:
         probs.append("row counts do not span 0..8+")
     return probs
@@ -970,34 +1175,42 @@ def coq_steps(st, g):
     p = C.cnat(st["p"])
     o = st["o"]
     if o == "mat":
-        return [f"TOp {p} OMaterialize"]
+        mode = "Rebind" if st.get("form") in ("user_stats", "cache_load") else "InPlace"
+        return [f"HOp {p} OMaterialize {mode}"]
     if o == "read_tf":
-        return [f"TReadTF {p}"]
-    if o == "read_stats":
-        return [f"TReadStats {p}"]
-    if o == "sel":
-        di = f"(DIdx {R.coq_index(st['idx'])})"
-        return [f"TOp {p} (OGetItem (KRows {di}))" if st["via"] == "getitem" else f"TOp {p} (OIndexSelect {di})"]
-    if o == "fslice":
-        di = f"(DSlice {coq_bound(st['a'])} {coq_bound(st['b'])} {C.copt(st['s'], C.cz)})"
-        return [f"TOp {p} (OGetItem (KRows {di}))" if st["via"] == "getitem" else f"TOp {p} (OIndexSelect {di})"]
-    if o == "shuffle":
+        return [f"HReadTF {p}"]
+    if o in ("read_stats", "read_conv"):       # the same gate in the model
+        return [f"HReadStats {p}"]
+    if o in ("sel", "fslice"):
+        if o == "sel":
+            di = f"(DIdx {R.coq_index(st['idx'])})"
+        else:
+            di = f"(DSlice {coq_bound(st['a'])} {coq_bound(st['b'])} {C.copt(st['s'], C.cz)})"
+        ops = [f"(OGetItem (KRows {di}))" if st["via"] == "getitem" else f"(OIndexSelect {di})"]
+    elif o == "shuffle":
         perm = g.get("perm") or g.get("perm_inferred") or []
-        return [f"TOp {p} (OShuffle {C.clist(perm, C.cnat)})"]
-    if o == "get_split":
-        return [f"TOp {p} (OGetSplit {C.cstr(st['name'])})"]
-    if o == "split":
-        return [f"TOp {p} (OGetSplit {C.cstr(nm)})" for nm in ("train", "val", "test")]
-    if o == "col_select":
+        ops = [f"(OShuffle {C.clist(perm, C.cnat)})"]
+    elif o == "get_split":
+        ops = [f"(OGetSplit {C.cstr(st['name'])})"]
+    elif o == "split":
+        ops = [f"(OGetSplit {C.cstr(nm)})" for nm in ("train", "val", "test")]
+    elif o == "col_select":
         cols = C.clist(st["cols"], C.cstr)
-        if st["via"] == "method":
-            return [f"TOp {p} (OColSelect {cols})"]
-        if st["via"] == "getitem":
-            return [f"TOp {p} (OGetItem (KStrs {cols}))"]
-        if st["via"] == "getitem_str":
-            return [f"TOp {p} (OGetItem (KStr {C.cstr(st['cols'][0])}))"]
-        return [f"TOp {p} (OColSelect [{C.cstr(st['cols'][0])}])"]
-    raise ValueError(o)
+        if st["via"] in ("method", "method_kw"):
+            ops = [f"(OColSelect {cols})"]
+        elif st["via"] == "getitem":
+            ops = [f"(OGetItem (KStrs {cols}))"]
+        elif st["via"] == "getitem_str":
+            ops = [f"(OGetItem (KStr {C.cstr(st['cols'][0])}))"]
+        else:
+            ops = [f"(OColSelect [{C.cstr(st['cols'][0])}])"]
+    else:
+        raise ValueError(o)
+    return [f"HOp {p} {x} InPlace" for x in ops]
+
+
+def coq_views(v):
+    return C.clist(v, lambda x: C.copt(x, lambda l: C.clist(l, C.cstr)))
 
 
 def coq_node(s):
@@ -1036,20 +1249,27 @@ def coq_term(case, obs):
                 g["perm_inferred"] = infer_perm_from_obs(case, obs, st, g)
                 if g["perm_inferred"] is None:
                     return None
-            prog += coq_steps(st, g)
+            sub = coq_steps(st, g)
+            prog += sub
             if g.get("skipped") or not g["ok"]:
-                exp += ["OErr"] * max(k, 1)
+                outs = ["OErr"] * max(k, 1)
             elif o == "read_tf":
                 if g.get("prob") or g["tf"] is None:
                     return None
-                exp.append(f"OTF {C.clist(g['tf'], C.cnat)}")
-            elif o == "read_stats":
-                exp.append("OOk")
+                outs = [f"OTF {C.clist(g['tf'], C.cnat)}"]
+            elif o in ("read_stats", "read_conv"):
+                outs = ["OOk"]
             else:
-                exp += [coq_node(s) for s in g["nodes"]]
+                outs = [coq_node(s) for s in g["nodes"]]
+            # statistics keys of every dataset after the step; a split() is three model steps, and a
+            # deriving step never changes an existing view, so the j-th sub-step sees the first n0+j+1 entries
+            views = g["views"]
+            for j, out in enumerate(outs):
+                v = views if len(outs) == 1 else views[:len(views) - len(outs) + j + 1]
+                exp.append(f"({out}, {coq_views(v)})")
     except ValueError:
         return None        # an unreadable observation: the oracle reports it
-    return f"run_case {d0} {C.clist(prog)} {C.clist(exp)}"
+    return f"heap_case {d0} {C.clist(prog)} {C.clist(exp)}"
 
 
 def infer_perm_from_obs(case, obs, st, g):
